@@ -44,13 +44,16 @@ GROUP = {"backoff_delay": "Recon", "should_attempt_reconnect": "Recon", "record_
          "silence_pull_window_ms": "Stall", "is_briefly_silent": "Stall", "update_silence_pull": "Stall",
          "perform_window_recovery": "Recov", "cong_perform_window_recovery": "Recov",
          "conn_perform_window_recovery": "Recov",
-         "set_conn_timeout_ms": "Cfg"}
+         "set_conn_timeout_ms": "Cfg",
+         "reg_handle_reg3": "Reg", "reg_handle_reg_err": "Reg", "reg_handle_reg_ngp": "Reg",
+         "reg_clear_pending_if_timed_out": "Reg", "reg_build_reg1_for": "Reg", "reg_reg1_if_ngp_immediate": "Reg",
+         "reg_handle_reg2": "Reg"}
 # groups with a canonical signature: parameters = the self fields read in struct declaration order, then the
 # opaque getter inputs, then the Rust parameters in signature order; outputs in the same order.  (The four
 # earlier groups keep the order of first use in the body, which the lemmas of Proofs/Leaf{Recon,Live,Cong,
 # Seq}P.v are stated for.)  With a canonical order neither a reordering of reads in the body nor a swap of
 # two same-typed arguments of a wrapper can move a parameter under the lemma that applies it by position.
-CANONICAL_GROUPS = {"Stall", "Recov", "Cfg"}
+CANONICAL_GROUPS = {"Stall", "Recov", "Cfg", "Reg", "Trk", "Batch", "Crit", "Cc", "Cls"}
 # groups whose definitions may use f64 values (header additionally imports Floats, FConstants, Select)
 FLOAT_GROUPS = {"Stall", "Recov"}
 CORE = "crates/srtla-core/src/"
@@ -88,6 +91,15 @@ LEAVES = [
     ("conn_perform_window_recovery", CORE + "connection/mod.rs", "SrtlaConnection", "perform_window_recovery"),
     # runtime timeout clamp (C18)
     ("set_conn_timeout_ms", "src/config.rs", "DynamicConfig", "set_conn_timeout_ms"),
+    # ---- third batch ----
+    # registration manager (C07); packet bytes are C15's subject: a produced packet is `tt`
+    ("reg_handle_reg3", CORE + "registration/mod.rs", "SrtlaRegistrationManager", "handle_reg3"),
+    ("reg_handle_reg_err", CORE + "registration/mod.rs", "SrtlaRegistrationManager", "handle_reg_err"),
+    ("reg_handle_reg_ngp", CORE + "registration/mod.rs", "SrtlaRegistrationManager", "handle_reg_ngp"),
+    ("reg_clear_pending_if_timed_out", CORE + "registration/mod.rs", "SrtlaRegistrationManager", "clear_pending_if_timed_out"),
+    ("reg_build_reg1_for", CORE + "registration/mod.rs", "SrtlaRegistrationManager", "build_reg1_for"),
+    ("reg_reg1_if_ngp_immediate", CORE + "registration/mod.rs", "SrtlaRegistrationManager", "reg1_if_ngp_immediate"),
+    ("reg_handle_reg2", CORE + "registration/mod.rs", "SrtlaRegistrationManager", "handle_reg2"),
 ]
 
 # leaves whose equivalence lemma mentions leaf_<name>_asserts: the definition is emitted even when the
@@ -100,6 +112,15 @@ OPAQUE_GETTERS = {("KalmanFilter", "value"): "f64", ("KalmanFilter", "velocity")
 ATOMIC = {"AtomicU64": "u64", "AtomicU32": "u32", "AtomicI32": "i32", "AtomicBool": "bool", "AtomicUsize": "usize"}
 
 INT_TYPES = {"u8", "u16", "u32", "u64", "usize", "i32", "i64"}
+# field-less enums of the sources read (name -> [variants]); a value is a constructor of a generated Inductive
+ENUMS = {}
+# byte arrays / packets are not translated here (their bytes are property C15's subject, tools/gen_wire.py):
+# a value of such a type is `tt : unit`, so `Option<[u8; N]>` keeps exactly "was a packet produced"
+OPAQUE_FNS = {"create_reg1_packet": "bytes", "create_reg2_packet": "bytes"}
+# methods of self that are not translated and may change any part of self: allowed only as the LAST effect
+# of a path (followed by nothing or a bare `return;`); the call and its arguments become an explicit output
+# `call_<name> : option (args)` (None on the paths that do not call it)
+OPAQUE_EFFECTS = {("SrtlaRegistrationManager", "handle_probe_response")}
 FIELD_PATHS = {}
 REGISTRY = {}   # rust method name -> {coq, origins, outs, rtype} of already translated leaves
 
@@ -176,6 +197,28 @@ def find_fn(src, impl, name):
     ret = ret[2:].strip() if ret.startswith("->") else ""
     e = match_brace(region, k)
     return params, ret, region[k + 1:e]
+
+
+def enum_variants(src_by_file):
+    """field-less enums: name -> [variant, ..] in declaration order (enums with payloads are left out)"""
+    out = {}
+    for src in src_by_file.values():
+        for m in re.finditer(r"\benum\s+(\w+)\s*\{", src):
+            e = match_brace(src, m.end() - 1)
+            body = re.sub(r"#\[[^\]]*\]", "", src[m.end():e])
+            vs = [v.strip() for v in body.split(",") if v.strip()]
+            if vs and all(re.match(r"[A-Za-z_]\w*$", v) for v in vs):
+                out.setdefault(m.group(1), vs)
+    return out
+
+
+def enum_decl(name):
+    vs = ENUMS[name]
+    cs = " | ".join("%s_%s" % (name, v) for v in vs)
+    eq = " | ".join("%s_%s, %s_%s" % (name, v, name, v) for v in vs)
+    return ("(* enum %s of the Rust source, variants in declaration order *)\nInductive %s := %s.\n"
+            "Definition %s_eqb (a b : %s) : bool :=\n  match a, b with %s => true | _, _ => false end.\n"
+            % (name, name, cs, name, name, eq))
 
 
 def struct_fields(src_by_file):
@@ -335,7 +378,16 @@ class P:
             var = self.take()[1]
             self.expect(")")
             self.expect("=")
-            scrut = self.expr(no_struct=True)
+            # the scrutinee of a `let` in a condition binds tighter than `&&` (let chains):
+            # `if let Some(x) = e && c { A } else { B }` = match e { Some(x) => if c { A } else { B }, None => B }
+            scrut = self.expr(no_struct=True, lvl=2)
+            chain = None
+            if self.eat("&&"):
+                if self.peek()[1] == "let":
+                    raise TErr("second `let` in a let chain")
+                chain = self.expr(no_struct=True, lvl=1)
+            if self.peek()[1] == "||":
+                raise TErr("`||` after a `let` condition")
             self.expect("{")
             a = self.block()
             b = []
@@ -345,6 +397,8 @@ class P:
                 else:
                     self.expect("{")
                     b = self.block()
+            if chain is not None:
+                a = [("expr", ("if", chain, a, b))]
             return ("iflet", var, scrut, a, b)
         c = self.expr(no_struct=True)
         self.expect("{")
@@ -419,6 +473,17 @@ class P:
     def postfix(self):
         e = self.atom()
         while True:
+            if self.peek()[1] == "." and self.peek(1)[1] == ".":
+                return e                                   # `lo..hi`: the range belongs to the enclosing `[ ]`
+            if self.peek()[1] == "[":
+                self.take()
+                lo = self.expr()
+                if not (self.eat(".") and self.eat(".")):
+                    raise TErr("indexing other than a range lo..hi")
+                hi = self.expr()
+                self.expect("]")
+                e = ("slice", e, lo, hi)
+                continue
             if self.eat("."):
                 name = self.take()[1]
                 if self.peek()[1] == "(":
@@ -487,6 +552,8 @@ class Ctx:
         self.tail_types = []      # rust types of the values produced by tail / return expressions
         self.uses_float = False
         self.local_names = set()  # Coq names of the locals bound so far
+        self.used_enums = set()   # enums whose Inductive the group file must declare
+        self.pseudo = {}          # pseudo outputs (opaque calls, byte-array copies): name -> initial value
 
     def field_type(self, path):
         ty = self.self_type
@@ -522,8 +589,22 @@ class Ctx:
         return name, rty
 
 
+def norm_type(rty):
+    """`[u8; N]` -> bytes, `[u8]` -> slice (inside Option<..> too)"""
+    rty = re.sub(r"\[\s*u8\s*;[^\]]*\]", "bytes", rty.strip())
+    return re.sub(r"\[\s*u8\s*\]", "slice", rty)
+
+
 def coq_type(rty):
-    rty = rty.strip()
+    rty = norm_type(rty)
+    if rty == "Self":
+        raise TErr("type Self outside an enum impl")
+    if rty in ENUMS:
+        return rty
+    if rty == "bytes":
+        return "unit"
+    if rty == "Option<bytes>":
+        return "option unit"
     if rty in INT_TYPES:
         return "Z"
     if rty == "bool":
@@ -624,6 +705,16 @@ def path_of(e):
     return None
 
 
+def strip_paren(e):
+    while e[0] == "paren":
+        e = e[1]
+    return e
+
+
+def is_some_or_none(e):
+    return (e[0] == "var" and e[1] == "None") or (e[0] == "fcall" and e[1] == "Some" and len(e[2]) == 1)
+
+
 def is_ordering(e):
     return e[0] == "var" and e[1].split("::")[0] == "Ordering" and "::" in e[1]
 
@@ -699,6 +790,8 @@ def ev(e, env):
         if n in ("true", "false"):
             return n, "bool"
         if n in env.v:
+            if env.v[n][1] == "slice":
+                raise TErr("slice %s used as a value" % n)
             return env.v[n]
         base = n.split("::")[-1]
         if n.endswith("::MAX") or n.endswith("::MIN"):
@@ -706,6 +799,14 @@ def ev(e, env):
             tab = {"i32::MIN": "i32_min", "i32::MAX": "i32_max", "u64::MAX": "u64_max"}
             if n in tab:
                 return tab[n], ty
+        if "::" in n:
+            en = n.split("::")[-2]
+            en = ctx.self_type if en == "Self" else en
+            if en in ENUMS and len(n.split("::")) == 2:
+                if base not in ENUMS[en]:
+                    raise TErr("enum %s has no variant %s" % (en, base))
+                ctx.used_enums.add(en)
+                return "%s_%s" % (en, base), en
         if base in ctx.consts:
             return base, ctx.consts[base]
         if base == "None":
@@ -767,8 +868,32 @@ def ev(e, env):
             if t == "bool":
                 r = "(Bool.eqb %s %s)" % (sa, sb)
                 return (r if op == "==" else "(negb %s)" % r), "bool"
-            if t is not None and t.startswith("Option"):
-                raise TErr("comparison on Option")
+            if ta in ENUMS or tb in ENUMS:
+                if ta != tb or op not in ("==", "!="):
+                    raise TErr("operator %s on %s and %s" % (op, ta, tb))
+                ctx.used_enums.add(ta)
+                r = "(%s_eqb %s %s)" % (ta, sa, sb)
+                return (r if op == "==" else "(negb %s)" % r), "bool"
+            if (ta or "").startswith("Option") or (tb or "").startswith("Option"):
+                # `opt == Some(e)` / `opt == None` (either side); anything else is outside the subset
+                if op not in ("==", "!="):
+                    raise TErr("ordering comparison on Option")
+                x, y = (a, b) if strip_paren(b)[0] in ("fcall", "var") and is_some_or_none(strip_paren(b)) else (b, a)
+                y = strip_paren(y)
+                if not is_some_or_none(y):
+                    raise TErr("comparison of two Option values")
+                sx, tx = ev(x, env)
+                if not ((tx or "").startswith("Option<") and tx[7:-1].strip() in INT_TYPES):
+                    raise TErr("comparison on %s" % tx)
+                if y[0] == "var":
+                    r = "(match %s with Some _ => false | None => true end)" % sx
+                else:
+                    env2 = env.copy()
+                    ctx.fresh += 1
+                    cv = "o_%d" % ctx.fresh
+                    sy, _ = ev(y[2][0], env)
+                    r = "(match %s with Some %s => (%s =? %s) | None => false end)" % (sx, cv, cv, sy)
+                return (r if op == "==" else "(negb %s)" % r), "bool"
             tab = {"==": "(%s =? %s)", "!=": "(negb (%s =? %s))", "<": "(%s <? %s)", ">": "(%s <? %s)",
                    "<=": "(%s <=? %s)", ">=": "(%s <=? %s)"}
             if op in (">", ">="):
@@ -825,6 +950,8 @@ def ev(e, env):
             if rty == "f64":
                 ctx.uses_float = True
             return nm, rty
+        if name == "len" and not args and recv[0] == "var" and env.v.get(recv[1], (None, None))[1] == "slice":
+            return recv[1] + "_len", "usize"             # length of a `&[u8]` parameter: an input of its own
         if name == "is_empty":
             p = path_of(recv)
             if p is None:
@@ -862,6 +989,11 @@ def ev(e, env):
             if callee["outs"]:
                 raise TErr("call to mutating function %s in expression position" % name)
             return "(leaf_%s %s)" % (callee["coq"], " ".join(call_actuals(callee, None, args, env))), callee["rtype"]
+        if name in OPAQUE_FNS and callee is None:
+            note = "%s(..) is not translated here (wire codec, property C15): its value is tt" % name
+            if note not in ctx.notes:
+                ctx.notes.append(note)
+            return "tt", OPAQUE_FNS[name]
         sargs = [ev(a, env) for a in args]
         if name in ("min", "max") and len(sargs) == 2:
             return "(Z.%s %s %s)" % (name, sargs[0][0], sargs[1][0]), sargs[0][1] or sargs[1][1]
@@ -907,7 +1039,8 @@ def has_string(e):
 
 
 def state_tuple(env, names, ret):
-    parts = [env.cur(n, (n, None))[0] for n in names]
+    parts = [env.v[n][0] if n in env.ctx.pseudo and n in env.v else env.ctx.pseudo[n] if n in env.ctx.pseudo
+             else env.cur(n, (n, None))[0] for n in names]
     if ret is not None:
         parts.append(ret)
     if not parts:
@@ -924,6 +1057,14 @@ def effect_call(e, env):
     ctx = env.ctx
     if e[0] == "call" and e[1] == "store" and path_of(e[2]) is not None and len(e[3]) == 2 and is_ordering(e[3][1]):
         return ("store", e[2], e[3][0])
+    if e[0] == "call" and e[2] == ("var", "self") and (ctx.self_type, e[1]) in OPAQUE_EFFECTS:
+        return ("delegate", "call_" + e[1], e[3])
+    if e[0] == "call" and e[1] == "copy_from_slice" and path_of(e[2]) is not None and len(e[3]) == 1 \
+            and norm_type(ctx.field_type(path_of(e[2])) or "") == "bytes" and e[3][0][0] == "slice" \
+            and e[3][0][1][0] == "var" and env.v.get(e[3][0][1][1], (None, None))[1] == "slice":
+        # self.<byte array>.copy_from_slice(&<slice param>[lo..hi]): the bytes are not translated; WHICH range of
+        # the parameter is copied is an explicit output `<field>_from_<param> : option (lo, hi)`
+        return ("copy", "_".join(path_of(e[2])) + "_from_" + e[3][0][1][1], e[3][0][2], e[3][0][3], path_of(e[2]))
     callee, base, args = None, None, None
     if e[0] == "call":
         found = find_callee(e[2], e[1], ctx)
@@ -962,9 +1103,20 @@ def collect_assigned(stmts, env, acc):
                 acc.append(n)
         elif s[0] == "exprstmt" and effect_call(s[1], env) is not None:
             eff = effect_call(s[1], env)
-            names = [env.ctx.use_field(path_of(eff[1]), atomic=True)[0]] if eff[0] == "store" else \
-                [effect_lvalue_name(lv, env) for lv in eff[4]]
+            if eff[0] in ("delegate", "copy"):
+                env.ctx.pseudo.setdefault(eff[1], "None")
+                if eff[0] == "copy":
+                    FIELD_PATHS[(id(env.ctx), eff[1])] = list(eff[4])
+                names = [eff[1]]
+            else:
+                names = [env.ctx.use_field(path_of(eff[1]), atomic=True)[0]] if eff[0] == "store" else \
+                    [effect_lvalue_name(lv, env) for lv in eff[4]]
             for n in names:
+                if n not in acc:
+                    acc.append(n)
+        elif s[0] in ("let", "tail", "return") and s[-1] is not None and valued_effect(s[-1], env) is not None:
+            for lv in effect_call(valued_effect(s[-1], env)[0], env)[4]:
+                n = effect_lvalue_name(lv, env)
                 if n not in acc:
                     acc.append(n)
         elif s[0] == "letelse":
@@ -1011,9 +1163,46 @@ def describe(e):
     return e[0]
 
 
+def valued_effect(e, env):
+    """`f(..)` / `Some(f(..))` where f is a translated function WITH outputs and a return value ->
+    (call expr, wrap in Some?) ; None otherwise"""
+    e = strip_paren(e)
+    wrap = False
+    if e[0] == "fcall" and e[1] == "Some" and len(e[2]) == 1:
+        e, wrap = strip_paren(e[2][0]), True
+    if e[0] in ("call", "fcall"):
+        eff = effect_call(e, env)
+        if eff is not None and eff[0] == "call" and eff[1]["outs"] and eff[1]["rtype"]:
+            return e, wrap
+    return None
+
+
 def run_stmts(stmts, env, outs, has_ret):
     """Translate a statement list into a Coq expression of the function's result type.
     outs: ordered names of mutated lvalues; has_ret: function returns a value."""
+    if stmts and stmts[0][0] in ("let", "tail", "return") and stmts[0][1 if stmts[0][0] != "let" else 2] is not None \
+            and valued_effect(stmts[0][1 if stmts[0][0] != "let" else 2], env) is not None:
+        # hoist: `let x = f(..)` / `Some(f(..))` with a mutating f becomes `let '(outs.., r) := leaf_f .. in ..`
+        s0 = stmts[0]
+        call_e, wrap = valued_effect(s0[2] if s0[0] == "let" else s0[1], env)
+        _, callee, base, args, lvs = effect_call(call_e, env)
+        call = "(leaf_%s %s)" % (callee["coq"], " ".join(call_actuals(callee, base, args, env)))
+        names = [effect_lvalue_name(lv, env) for lv in lvs]
+        if len(set(names)) != len(names):
+            raise TErr("aliased outputs in call of %s" % callee["coq"])
+        tmps = []
+        for n in names:
+            cur_t = env.cur(n, (None, env.ctx.ptype.get(n)))[1]
+            env.ctx.fresh += 1
+            tmps.append("%s_%d" % (n, env.ctx.fresh))
+            env.setcur(n, (tmps[-1], cur_t))
+        env.ctx.fresh += 1
+        rv = "ret_%d" % env.ctx.fresh
+        rty = norm_type(callee["rtype"])
+        env.v[rv] = (rv, rty)
+        val = ("fcall", "Some", [("var", rv)]) if wrap else ("var", rv)
+        s1 = ("let", s0[1], val) if s0[0] == "let" else (s0[0], val)
+        return "(let '(%s) := %s in %s)" % (", ".join(tmps + [rv]), call, run_stmts([s1] + list(stmts[1:]), env, outs, has_ret))
     if not stmts:
         if has_ret:
             raise TErr("fell off the end of a value-returning block")
@@ -1043,6 +1232,19 @@ def run_stmts(stmts, env, outs, has_ret):
         return "(match %s with Some %s => %s | None => %s end)" % (sc, lv, a, b)
     if k == "exprstmt" and effect_call(s[1], env) is not None:
         eff = effect_call(s[1], env)
+        if eff[0] == "delegate":
+            # the callee may change anything: nothing of self may be read or written after it on this path
+            if not (not rest or rest[0] == ("return", None)):
+                raise TErr("untranslated method %s is not the last effect of its path" % eff[1][5:])
+            if has_ret:
+                raise TErr("untranslated method %s called in a value-returning function" % eff[1][5:])
+            sargs = [ev(a, env)[0] for a in eff[2]]
+            env.v[eff[1]] = ("(Some %s)" % ("tt" if not sargs else sargs[0] if len(sargs) == 1 else "(" + ", ".join(sargs) + ")"), None)
+            return state_tuple(env, outs, None)
+        if eff[0] == "copy":
+            lo, hi = ev(eff[2], env)[0], ev(eff[3], env)[0]
+            env.v[eff[1]] = ("(Some (%s, %s))" % (lo, hi), None)
+            return run_stmts(rest, env, outs, has_ret)
         if eff[0] == "store":
             n = env.ctx.use_field(path_of(eff[1]), atomic=True)[0]
             se, te = ev(eff[2], env)
@@ -1069,6 +1271,8 @@ def run_stmts(stmts, env, outs, has_ret):
     if k == "assign":
         n = lvalue_name(s[1], env)
         se, te = ev(s[2], env)
+        if se == "None" and n in env.ctx.ptype:
+            se = "(@None %s)" % coq_type(env.ctx.ptype[n])[7:]       # `None` alone does not determine its type
         cur_t = env.cur(n, (None, te))[1]
         env.fresh = getattr(env, "fresh", 0)
         env.ctx.fresh += 1
@@ -1126,6 +1330,10 @@ def run_cond(e, rest, env, outs, has_ret):
                 cp = "Some %s" % en.bind(m.group(1), inner)
             elif pat in ("None", "_"):
                 cp = pat
+            elif tsc in ENUMS and "::" in pat and pat.split("::")[-1] in ENUMS[tsc] and \
+                    pat.split("::")[:-1] in ([tsc], ["Self"] if env.ctx.self_type == tsc else [tsc]):
+                env.ctx.used_enums.add(tsc)
+                cp = "%s_%s" % (tsc, pat.split("::")[-1])
             else:
                 raise TErr("match pattern %s" % pat)
             arms.append("%s => %s" % (cp, run_stmts(list(body) + list(rest), en, outs, has_ret)))
@@ -1148,12 +1356,26 @@ def translate(coq_name, rel, impl, fn, srcs, structs, consts):
     pos = 0
     for p in [x.strip() for x in re.split(r",(?![^<]*>)", params) if x.strip()]:
         if p in ("&self", "&mut self", "self"):
+            if impl in ENUMS:
+                # method of a field-less enum: `self` is the value, first parameter `this`
+                fparams.append(("this", impl))
+                fpos["this"] = -1
+                env.v["self"] = ("this", impl)
+                ctx.used_enums.add(impl)
             continue
         nm, ty = [x.strip() for x in p.split(":", 1)]
         nm = nm.replace("mut ", "").strip()
-        ty = ty.replace("&mut ", "").replace("&", "").strip()
+        ty = norm_type(ty.replace("&mut ", "").replace("&", "").strip())
+        if ty == "Self":
+            ty = impl
         pos += 1
         if ty in ("str", "String") or nm.startswith("_"):
+            continue
+        if ty == "slice":
+            # a `&[u8]` parameter: only its length is an input (<name>_len); its bytes are not translated
+            fparams.append((nm + "_len", "usize"))
+            fpos[nm + "_len"] = pos - 1
+            env.v[nm] = (nm, "slice")
             continue
         fparams.append((nm, ty))
         fpos[nm] = pos - 1
@@ -1162,12 +1384,14 @@ def translate(coq_name, rel, impl, fn, srcs, structs, consts):
     stmts = P(tokenize(body)).block_from_start()
     outs = collect_assigned(stmts, env, [])
     # only lvalues that are parameters or self fields count as outputs (locals are lets)
-    outs = [n for n in outs if n in ctx.ptype or n in [a for a, _ in fparams]]
+    outs = [n for n in outs if n in ctx.ptype or n in [a for a, _ in fparams] or n in ctx.pseudo]
     canonical = GROUP.get(coq_name) in CANONICAL_GROUPS
 
     def canon_key(n):
         if n in fpos:
             return (2, (fpos[n],), n)
+        if n in ctx.pseudo and (id(ctx), n) not in FIELD_PATHS:
+            return (3, (), n)
         path = FIELD_PATHS[(id(ctx), n)]
         idx, ty = [], impl
         for f in path:
@@ -1179,6 +1403,11 @@ def translate(coq_name, rel, impl, fn, srcs, structs, consts):
     if canonical:
         outs = sorted(outs, key=canon_key)
     has_ret = bool(ret)
+    if ret:
+        ret = norm_type(ret)
+        ret = impl if ret == "Self" else ret
+        if ret in ENUMS:
+            ctx.used_enums.add(ret)
     expr = run_stmts(stmts, env, outs, has_ret)
     used = lambda n: re.search(r"\b%s\b" % re.escape(n), expr) is not None
     plist = [(n, t) for n, t in ctx.params]
@@ -1204,6 +1433,13 @@ def translate(coq_name, rel, impl, fn, srcs, structs, consts):
     if ctx.uses_float:
         ctx.notes.append("f64 values are Coq primitive floats (binary64, bit-exact); comparisons PrimFloat.ltb/leb/eqb, "
                          "`as`/min/max by the Rust f64 primitives of Model/Select.v")
+    for n in outs:
+        if n in ctx.pseudo and n.startswith("call_"):
+            ctx.notes.append("%s = Some (arguments): self.%s(..), which is not translated and may change any field, is "
+                             "called as the LAST effect of that path; None on the other paths" % (n, n[5:]))
+        elif n in ctx.pseudo:
+            ctx.notes.append("%s = Some (lo, hi): that range of the slice parameter is copied into the byte array (bytes "
+                             "themselves are not translated); None where nothing is copied" % n)
     for note in ctx.notes:
         doc += "\n(* %s *)" % note
     text = "%s\nDefinition leaf_%s %s :=\n  %s.\n" % (doc, coq_name, sig, expr)
@@ -1212,7 +1448,7 @@ def translate(coq_name, rel, impl, fn, srcs, structs, consts):
                  "conditions *)\nDefinition leaf_%s_asserts : bool :=\n  %s.\n"
                  % (fn, coq_name, " && ".join(ctx.asserts) or "true"))
     return text, {"params": [n for n, _ in plist], "outs": outs, "ret": has_ret, "float": ctx.uses_float,
-                  "asserts": len(ctx.asserts)}
+                  "asserts": len(ctx.asserts), "enums": sorted(ctx.used_enums)}
 
 
 def block_from_start(self):
@@ -1247,7 +1483,17 @@ def main():
             extra[rel] = strip_comments(open(os.path.join(REPO, rel)).read())
         except OSError:
             pass
+    for _, rel, _, _ in LEAVES:
+        if rel not in extra and srcs.get(rel):
+            extra[rel] = srcs[rel]
+    for rel in [CORE + "registration/probing.rs"]:
+        try:
+            extra[rel] = strip_comments(open(os.path.join(REPO, rel)).read())
+        except OSError:
+            pass
     structs = struct_fields(extra)
+    ENUMS.clear()
+    ENUMS.update(enum_variants(extra))
     consts = const_types()
     defs, meta, failed = {}, {}, {}
     for coq_name, rel, impl, fn in LEAVES:
@@ -1268,6 +1514,12 @@ def main():
             hdr = ("(* GENERATED by tools/gen_leaf.py from the Rust sources under %s on every run. Do not edit. *)\n"
                    "From Coq Require Import ZArith Bool Floats.\nFrom Srtla Require Import Base Constants FConstants.\n"
                    "From Srtla Require Select.\nOpen Scope Z_scope.\n\n" % REPO)
+        used = []
+        for n, m in meta.items():
+            if m.get("group") == g:
+                used += [e for e in m.get("enums", []) if e not in used]
+        if used:
+            hdr += "\n".join(enum_decl(e) for e in sorted(used)) + "\n"
         content = hdr + "\n".join(ds)
         out = os.path.join(OUTDIR, "Leaf%s.v" % g)
         try:
